@@ -12,6 +12,7 @@ import (
 type feature struct {
 	Name  string
 	Apply func(s *Sch)
+	Solo  bool // not composed with other features
 }
 
 func hcl(spec string, args ...Arg) TypeCase { return TypeCase{Src: "hcl", Spec: spec, Args: args} }
@@ -93,7 +94,7 @@ func (s *Sch) clone() *Sch {
 
 func features(d string) []feature {
 	var fs []feature
-	add := func(n string, f func(s *Sch)) { fs = append(fs, feature{n, f}) }
+	add := func(n string, f func(s *Sch)) { fs = append(fs, feature{Name: n, Apply: f}) }
 	child := func(f func(t *Tab)) func(*Sch) { return func(s *Sch) { f(s.tab("child")) } }
 	idx := func(n string, ix Idx) { add("index."+n, child(func(t *Tab) { t.Idx = append(t.Idx, ix) })) }
 
@@ -197,7 +198,8 @@ func features(d string) []feature {
 		for _, dl := range actions {
 			u, dl := u, dl
 			add(fmt.Sprintf("fk.actions:%s/%s", u, dl), child(func(t *Tab) {
-				t.FKs = append(t.FKs, FK{Symbol: "fk_parent", Cols: []string{"parent_id"}, RefTable: "parent", RefCols: []string{"id"}, OnUpdate: u, OnDelete: dl})
+				sym := fmt.Sprintf("fk_parent_%d", len(t.FKs)) // two action features compose into two foreign keys
+				t.FKs = append(t.FKs, FK{Symbol: sym, Cols: []string{"parent_id"}, RefTable: "parent", RefCols: []string{"id"}, OnUpdate: u, OnDelete: dl})
 			}))
 		}
 	}
@@ -248,8 +250,13 @@ func features(d string) []feature {
 	switch d {
 	case "mysql":
 		colf("charset+collation", "name", func(c *Col) { c.Charset, c.Collation = "latin1", "latin1_bin" })
+		// a column with only one of charset / collation is an incomplete description (an inspected column
+		// has both); combined with a table charset of another family the differ itself derives a charset
+		// from the collation and reports diff(s, s) != 0, which is not a round-trip matter: not composed.
 		colf("charset", "name", func(c *Col) { c.Charset = "latin1" })
+		fs[len(fs)-1].Solo = true
 		colf("collation", "name", func(c *Col) { c.Collation = "utf8mb4_bin" })
+		fs[len(fs)-1].Solo = true
 		colf("charset-text", "body", func(c *Col) { c.Charset, c.Collation = "utf8mb3", "utf8mb3_general_ci" })
 		colf("auto_increment", "id", func(c *Col) { c.AutoInc = true })
 		for _, ou := range []string{"CURRENT_TIMESTAMP", "CURRENT_TIMESTAMP(3)", "current_timestamp()", "now(3)"} {
@@ -313,14 +320,14 @@ func features(d string) []feature {
 		n := n
 		add("name.column:"+n, child(func(t *Tab) {
 			t.Cols = append(t.Cols, Col{Name: n, Type: t.col("qty").Type})
-			t.Idx = append(t.Idx, Idx{Name: "i_n", Parts: []Part{{Col: n}}})
+			t.Idx = append(t.Idx, Idx{Name: fmt.Sprintf("i_n%d", len(t.Idx)), Parts: []Part{{Col: n}}})
 		}))
 		add("name.table:"+n, func(s *Sch) {
 			p := s.tab("parent")
 			s.Tables = append(s.Tables, Tab{Name: n, Cols: []Col{{Name: "id", Type: p.col("id").Type}, {Name: "pid", Type: p.col("id").Type}},
 				PK: []Part{{Col: "id"}}, FKs: []FK{{Symbol: "fk_n", Cols: []string{"pid"}, RefTable: n, RefCols: []string{"id"}}}})
 			c := s.tab("child")
-			c.FKs = append(c.FKs, FK{Symbol: "fk_to_n", Cols: []string{"parent_id"}, RefTable: n, RefCols: []string{"id"}})
+			c.FKs = append(c.FKs, FK{Symbol: fmt.Sprintf("fk_to_n%d", len(c.FKs)), Cols: []string{"parent_id"}, RefTable: n, RefCols: []string{"id"}})
 		})
 	}
 	add("name.schema:my-db", func(s *Sch) { s.Name = "my-db" })
